@@ -79,20 +79,28 @@ Print Assumptions C06_split.
 (* non-vacuity: the 3-byte ISO Request 59904 (PDU1, addressed to 255 from 1, priority 6) in all four formats,
    with a time-stamp oracle that accepts exactly "00:00:00.000" *)
 Definition ex_ts (fmt : Z) (t : list Z) : bool := str_eqb t [48;48;58;48;48;58;48;48;46;48;48;48].
+Definition ex_usb : list Z := [170; 85; 1; 2; 1; 1; 255; 234; 24; 3; 0; 238; 0; 0; 0; 0; 0; 0; 0; 247].
+Definition ex_yd : list Z := [49; 56; 69; 65; 70; 70; 48; 49; 32; 48; 48; 32; 69; 69; 32; 48; 48; 13; 10].
+Definition ex_stamp : list Z := [48;48;58;48;48;58;48;48;46;48;48;48].
+Example C06_example_hyps :
+  hdr_ok 59904 1 255 6 /\ frames_ok [[0; 238; 0]] /\ ts_tok ex_ts 0 ex_stamp /\ dir_tok [82] /\ acti_ts_ok [49] [48].
+Proof.
+  split; [unfold hdr_ok; repeat split; try lia; reflexivity|].
+  split; [constructor; [split; [reflexivity | cbn [length]; lia] | constructor]|].
+  split; [split; [split; [discriminate | reflexivity] | split; reflexivity]|].
+  split; [left; reflexivity|].
+  exists 1, 0. unfold ts_limit. cbn [length]. repeat split; try lia; reflexivity.
+Qed.
 Example C06_example :
-  hdr_ok 59904 1 255 6 /\ frames_ok [[0; 238; 0]] /\
   enc_ebyte 59904 1 255 6 [[0; 238; 0]] = Ok [[131; 24; 234; 255; 1; 0; 238; 0; 0; 0; 0; 0; 0]] /\
-  map parse_tcp [[131; 24; 234; 255; 1; 0; 238; 0; 0; 0; 0; 0; 0]] = [Ok (Some (59904, 6, 1, 255, [0; 238; 0], false))] /\
-  (exists p, enc_usb 59904 1 255 6 [[0; 238; 0]] = Ok [p] /\ length p = 20%nat /\
-             parse_usb p = Ok (Some (59904, 6, 1, 255, [0; 238; 0], false)) /\
-             parse_usb (set_nth 12 239 p) = Ok None) /\
-  (exists p, enc_yd 59904 1 255 6 [[0; 238; 0]] = Ok [p] /\
-             parse_yd ex_ts ([48;48;58;48;48;58;48;48;46;48;48;48] ++ [32] ++ [82] ++ [32] ++ p)
-             = Ok (Some (59904, 6, 1, 255, [0; 238; 0], false)) /\ lines (p ++ p) = [p; p]) /\
+  parse_tcp [131; 24; 234; 255; 1; 0; 238; 0; 0; 0; 0; 0; 0] = Ok (Some (59904, 6, 1, 255, [0; 238; 0], false)) /\
+  enc_usb 59904 1 255 6 [[0; 238; 0]] = Ok [ex_usb] /\
+  parse_usb ex_usb = Ok (Some (59904, 6, 1, 255, [0; 238; 0], false)) /\
+  parse_usb (set_nth 12 239 ex_usb) = Ok None /\
+  enc_yd 59904 1 255 6 [[0; 238; 0]] = Ok [ex_yd] /\
+  parse_yd ex_ts (ex_stamp ++ [32] ++ [82] ++ [32] ++ ex_yd) = Ok (Some (59904, 6, 1, 255, [0; 238; 0], false)) /\
+  lines (ex_yd ++ ex_yd) = [ex_yd; ex_yd] /\ chunks 20 (ex_usb ++ ex_usb) = [ex_usb; ex_usb] /\
+  serial_frames (ex_usb ++ ex_usb) = [ex_usb; ex_usb] /\
   parse_acti (acti_ts [49] [48] ++ [32] ++ enc_actisense 59904 1 255 6 [0; 238; 0])
   = Ok (Some (59904, 6, 1, 255, [0; 238; 0], true)).
-Proof.
-  split; [repeat split; try discriminate; reflexivity|].
-  split; [repeat constructor|].
-  vm_compute. repeat split; eexists; repeat split.
-Qed.
+Proof. vm_compute. repeat split. Qed.
